@@ -34,8 +34,7 @@ Proof. induction a as [|o a IH]; intros b s; [reflexivity|]. cbn [app sys_run]. 
 
 Lemma sys_events_app F m rv : forall a b s,
   sys_events F m rv s (a ++ b) = sys_events F m rv s a ++ sys_events F m rv (sys_run F m rv s a) b.
-Proof. induction a as [|o a IH]; intros b s; [reflexivity|]. cbn [app sys_events sys_run].
-  destruct (sys_step F m rv s o) as [s' x]. cbn [fst app]. f_equal. apply IH. Qed.
+Proof. induction a as [|o a IH]; intros b s; [reflexivity|]. cbn [app sys_events sys_run]. f_equal. apply IH. Qed.
 
 Lemma contract_app F m rv : forall a b s,
   contract F m rv s (a ++ b) = contract F m rv s a && contract F m rv (sys_run F m rv s a) b.
@@ -48,20 +47,23 @@ Proof. unfold spec_run. apply fold_left_app. Qed.
 Lemma frags_pad_to_term_end g s : frags (pad_to_term_end g s) = [].
 Proof. unfold pad_to_term_end. destruct (_ =? 0); reflexivity. Qed.
 
+Lemma frags_pad_to_reported g s q : frags (pad_to_reported g s q) = [].
+Proof. unfold pad_to_reported. destruct q; try reflexivity. destruct (_ <? _); reflexivity. Qed.
+
 Lemma spec_refused g sp e :
   match e with
-  | EvOffer _ (Ok _) | EvClaim _ (Ok _) | EvCommit _ | EvPoll _ => False
+  | EvOffer _ (Ok _) _ | EvClaim _ (Ok _) _ | EvCommit _ | EvPoll _ => False
   | _ => True
   end ->
   sp_acc (spec_step g sp e) = sp_acc sp /\ sp_del (spec_step g sp e) = sp_del sp /\
   frags (sp_stream (spec_step g sp e)) = frags (sp_stream sp).
-Proof. intros H. destruct e as [msg r|len r| | | |]; try contradiction; cbn [spec_step].
+Proof. intros H. destruct e as [msg r q|len r q| | | |]; try contradiction; cbn [spec_step].
   - destruct r as [p|e| | |]; try contradiction; try (repeat split; reflexivity).
-    destruct e; cbn [on_result sp_acc sp_del sp_stream]; repeat split; try reflexivity.
-    rewrite frags_app, frags_pad_to_term_end, app_nil_r. reflexivity.
+    destruct e; cbn [on_result sp_acc sp_del sp_stream]; repeat split; try reflexivity;
+      rewrite frags_app, ?frags_pad_to_term_end, ?frags_pad_to_reported, app_nil_r; reflexivity.
   - destruct r as [p|e| | |]; try contradiction; try (repeat split; reflexivity).
-    destruct e; cbn [on_result sp_acc sp_del sp_stream]; repeat split; try reflexivity.
-    rewrite frags_app, frags_pad_to_term_end, app_nil_r. reflexivity.
+    destruct e; cbn [on_result sp_acc sp_del sp_stream]; repeat split; try reflexivity;
+      rewrite frags_app, ?frags_pad_to_term_end, ?frags_pad_to_reported, app_nil_r; reflexivity.
   - destruct (sp_open sp) as [[len p]|]; cbn [sp_acc sp_del sp_stream]; repeat split; try reflexivity.
     rewrite frags_app. cbn [frags]. apply app_nil_r.
   - repeat split; reflexivity. Qed.
@@ -125,9 +127,9 @@ Proof. intros Hl _ Hp.
   - reflexivity. Qed.
 
 Lemma init_rep_shared :
-  sys_rep tlen mtu ses n0 off0 shared pub_inv (sys0_shared init tlen mtu ses str n0 off0) spec0.
+  sys_rep tlen mtu ses n0 off0 shared spinv (sys0_shared init tlen mtu ses str n0 off0) spec0.
 Proof. unfold sys0_shared. apply init_core; [reflexivity|reflexivity|].
-  apply handed_over_inv; assumption. Qed.
+  exists off0. split; [apply handed_over_inv; assumption|]. cbn [pub_init ps_log handed_over l_tlen]. lia. Qed.
 
 Lemma init_rep_exclusive :
   exists s0, sys0_exclusive init tlen mtu ses str n0 off0 = Ok s0 /\
@@ -181,11 +183,10 @@ Theorem drained_generic ops limit : contract F m rv s0 (ops ++ [SPoll limit]) = 
 Proof. intros Hc Hlim. cbv zeta. rewrite sys_run_app. cbn [sys_run]. intros Hsame Hopen.
   rewrite contract_app in Hc. apply andb_prop in Hc as [Hc1 Hc2]. cbn [contract] in Hc2. rewrite andb_true_r in Hc2.
   pose proof (run_rep ops Hc1) as Hrep1.
-  assert (Hlast : l_count (sys_log (sys_run F m rv s0 ops)) < two31 - 1) by (unfold env_ok in Hc2; lia).
-  destruct (poll_drained tlen mtu ses n0 off0 Hn0 Hoff0 F pinv FK m rv _ _ limit Hrep1 Hlast Hlim Hsame Hopen) as (Hd & Hpos & Hend).
+  destruct (poll_drained tlen mtu ses n0 off0 Hn0 Hoff0 F pinv FK m rv _ _ limit Hrep1 Hlim Hsame Hopen) as (Hd & Hpos & Hend).
   pose proof (sys_step_rep tlen mtu ses n0 off0 Hn0 Hoff0 Hoff0al Hmtu32 F pinv FK m rv _ _ (SPoll limit) Hrep1 Hc2) as Hrep2.
   pose proof (rep_prefix tlen mtu ses n0 off0 F pinv _ _ Hrep2) as Hpre.
-  unfold final_spec. rewrite sys_events_app, spec_run_app. cbn [sys_events].
+  unfold final_spec. rewrite sys_events_app, spec_run_app. cbn [sys_events]. unfold step_event in *.
   fold (final_spec ops) in *. set (s1 := sys_run F m rv s0 ops) in *.
   assert (Hpub : sy_pub (fst (sys_step F m rv s1 (SPoll limit))) = sy_pub s1).
   { cbn [sys_step]. destruct (image_poll _ _ _) as [[[[r ds] ws] im']| | | |]; try reflexivity.
@@ -212,7 +213,7 @@ Theorem shared_fidelity ops : contract shared m rv s0 ops = true ->
   is_prefix (sp_del sp) (map fst (sp_acc sp)) /\
   sp_ok sp = true /\ Forall (fun mp => snd mp mod 32 = 0) (sp_acc sp) /\ increasing (map snd (sp_acc sp)).
 Proof. destruct HO as (Hg & Hm32 & Hn & Ho & Hal).
-  apply (fidelity_generic tlen mtu ses n0 off0 ltac:(lia) ltac:(lia) Hal Hm32 shared pub_inv shared_flavour_ok m rv s0).
+  apply (fidelity_generic tlen mtu ses n0 off0 ltac:(lia) ltac:(lia) Hal Hm32 shared spinv shared_flavour_ok m rv s0).
   apply init_rep_shared; assumption. Qed.
 
 Theorem shared_drained ops limit : contract shared m rv s0 (ops ++ [SPoll limit]) = true -> 0 < limit ->
@@ -224,7 +225,7 @@ Theorem shared_drained ops limit : contract shared m rv s0 (ops ++ [SPoll limit]
   pub_position m (sy_pub s2) = (if ps_closed (sy_pub s2) then Err Closed else Ok (im_pos (sy_img s2))) /\
   im_pos (sy_img s2) = pos_after (sg_p0 gg) (sp_stream sp).
 Proof. destruct HO as (Hg & Hm32 & Hn & Ho & Hal).
-  apply (drained_generic tlen mtu ses n0 off0 ltac:(lia) ltac:(lia) Hal Hm32 shared pub_inv shared_flavour_ok m rv s0).
+  apply (drained_generic tlen mtu ses n0 off0 ltac:(lia) ltac:(lia) Hal Hm32 shared spinv shared_flavour_ok m rv s0).
   apply init_rep_shared; assumption. Qed.
 End SharedTop.
 
